@@ -125,7 +125,7 @@ deriving Repr, DecidableEq, Inhabited
 /-- the data of the context the selector runs in: most recent assignment first -/
 abbrev Bindings := List (Key × Rec)
 
-def bind (b : Bindings) (k : Key) (r : Rec) : Bindings := (k, r) :: b
+def setVar (b : Bindings) (k : Key) (r : Rec) : Bindings := (k, r) :: b
 
 def lookup : Bindings → Key → Option Rec
   | [], _ => none
@@ -134,7 +134,7 @@ def lookup : Bindings → Key → Option Rec
 /-- `for i, t in enumerate(match.groups(), 1): context['$' + str(i + 1)] = ...` -/
 def publishGroups (s : Str) : List (Option Span) → Nat → Bindings → Bindings
   | [], _, ctx => ctx
-  | g :: gs, i, ctx => publishGroups s gs (i + 1) (bind ctx (.num (i + 1)) (recOf s g))
+  | g :: gs, i, ctx => publishGroups s gs (i + 1) (setVar ctx (.num (i + 1)) (recOf s g))
 
 /-- span of group number `i` (1-based) -/
 def groupSpan (m : Match) (i : Nat) : Option Span :=
@@ -145,11 +145,11 @@ def groupSpan (m : Match) (i : Nat) : Option Span :=
 /-- `for key, value in match.groupdict().items(): context['$' + key] = ...` -/
 def publishNames (s : Str) (m : Match) : List (Str × Nat) → Bindings → Bindings
   | [], ctx => ctx
-  | (nm, gi) :: r, ctx => publishNames s m r (bind ctx (.name nm) (recOf s (groupSpan m gi)))
+  | (nm, gi) :: r, ctx => publishNames s m r (setVar ctx (.name nm) (recOf s (groupSpan m gi)))
 
 /-- `_publish_match` -/
 def publishMatch (s : Str) (m : Match) (ctx : Bindings) : Bindings :=
-  let ctx := bind ctx (.num 1) (recOf s (some m.whole))
+  let ctx := setVar ctx (.num 1) (recOf s (some m.whole))
   let ctx := publishGroups s m.groups 1 ctx
   publishNames s m m.names ctx
 
@@ -182,7 +182,7 @@ deriving Repr, DecidableEq, Inhabited
 inductive RVal where
   | atom (a : RAtom)
   | list (l : List RAtom)
-deriving Repr, Inhabited
+deriving Repr, DecidableEq, Inhabited
 
 def fieldOf (r : Rec) : Fld → RAtom
   | .value => match r.value with
